@@ -15,6 +15,7 @@ import (
 	codectypes "github.com/cosmos/cosmos-sdk/codec/types"
 	txtypes "github.com/cosmos/cosmos-sdk/types/tx"
 	"github.com/cosmos/cosmos-sdk/x/authz"
+	crisistypes "github.com/cosmos/cosmos-sdk/x/crisis/types"
 	govv1 "github.com/cosmos/cosmos-sdk/x/gov/types/v1"
 	"github.com/cometbft/cometbft/libs/log"
 	"github.com/cosmos/cosmos-sdk/baseapp"
@@ -144,6 +145,7 @@ type AolGenTopic struct {
 	Desc     string         `json:"desc,omitempty"`
 	Writers  []AolGenWriter `json:"writers,omitempty"`
 	Records  []AolGenRecord `json:"records,omitempty"`
+	Bulk     int            `json:"bulk,omitempty"` // this many synthetic records (by the first writer) in front of Records
 }
 type AolGenWriter struct {
 	AddrHex, Moniker, Desc string
@@ -202,6 +204,11 @@ func (e *Env) BuildGenesis(a *app.App, gs *GenesisSpec) ([]byte, *Model) {
 	gg.Params.MinDeposit = sdk.NewCoins(sdk.NewInt64Coin(FeeDenom, 1))
 	gg.Params.VotingPeriod = &vp
 	state["gov"] = e.Cdc.MustMarshalJSON(&gg)
+	// the fee of a MsgVerifyInvariant in the coin the simulated accounts hold
+	var cg crisistypes.GenesisState
+	e.Cdc.MustUnmarshalJSON(state["crisis"], &cg)
+	cg.ConstantFee = sdk.NewInt64Coin(FeeDenom, 1000)
+	state["crisis"] = e.Cdc.MustMarshalJSON(&cg)
 	custom, m := e.BuildGenesisModelOnly(gs)
 	for k, v := range custom {
 		state[k] = v
@@ -241,11 +248,20 @@ func (e *Env) BuildGenesisModelOnly(gs *GenesisSpec) (map[string]json.RawMessage
 				ts.Writers[string(wb)] = WriterM{Moniker: w.Moniker, Desc: w.Desc, Ts: w.Ts}
 				g.Writers[owner.String()+"/"+t.Name+"/"+sdk.AccAddress(wb).String()] = &aoltypes.Writer{Moniker: w.Moniker, Description: w.Desc, NanoTimestamp: w.Ts}
 			}
-			for i, r := range t.Records {
+			recs := t.Records
+			if t.Bulk > 0 && len(t.Writers) > 0 {
+				bw := sdk.AccAddress(mustHex(t.Writers[0].AddrHex)).String()
+				recs = make([]AolGenRecord, 0, t.Bulk+len(t.Records))
+				for i := 0; i < t.Bulk; i++ {
+					recs = append(recs, AolGenRecord{KeyHex: fmt.Sprintf("%06x", i), ValueHex: fmt.Sprintf("%02x", i%251), Ts: t.Writers[0].Ts + int64(i), Writer: bw})
+				}
+				recs = append(recs, t.Records...)
+			}
+			for i, r := range recs {
 				ts.Records = append(ts.Records, RecordM{Key: mustHex(r.KeyHex), Value: mustHex(r.ValueHex), Ts: r.Ts, Writer: r.Writer})
 				g.Records[fmt.Sprintf("%s/%s/%d", owner.String(), t.Name, i)] = &aoltypes.Record{Key: mustHex(r.KeyHex), Value: mustHex(r.ValueHex), NanoTimestamp: r.Ts, WriterAddress: r.Writer}
 			}
-			nrec := uint64(len(t.Records))
+			nrec := uint64(len(recs))
 			if gs.LagCounters && nrec >= 2 {
 				nrec = 0
 			}
